@@ -153,6 +153,15 @@ type session struct {
 	foreign  int
 	hostile  int
 	reopened int
+	// held: envelope slices exactly as FetchSignatureBlob returned them (not copies), with the digest
+	// they must keep having: what a caller was handed stays what it is, whatever is fetched later
+	held []heldEnvelope
+}
+
+type heldEnvelope struct {
+	got  []byte
+	want digest.Digest
+	id   int
 }
 
 // relation classifies r relative to subject x purely from the structure that was generated.
@@ -215,6 +224,13 @@ func (s *session) afterCall(site string) {
 		kind := s.ls.used[0]
 		s.ls.used = nil
 		s.fail("C19:refused-content-used:"+kind+":"+site, "%s requested the content of a referrer part that must be refused before use (%s); fetch log: %v", site, kind, digests(s.ls.fetched))
+	}
+	for _, h := range s.held {
+		if !bytes.Equal(h.got, s.blobs[h.want]) {
+			s.held = nil
+			s.fail("C19:fetched-bytes-changed-later:"+site, "the envelope returned earlier for signature #%d no longer holds the pushed bytes after a later %s (it now has digest %s)", h.id, site, digest.FromBytes(h.got))
+			return
+		}
 	}
 }
 
@@ -458,7 +474,9 @@ func (s *session) opPushSignature(rt *rapid.T) {
 		rt.Skip("push budget used")
 	}
 	subj := s.pickActive("sigSubject")
-	format := rp.Pick(rt, "format", mtJOSE, mtCOSE)
+	// the two envelope media types of the specification, and now and then another spelling: the
+	// repository stores what it is given and hands it back unchanged
+	format := rp.Pick(rt, "format", mtJOSE, mtCOSE, mtJOSE, mtCOSE, mtJOSE, mtCOSE, "application/vnd.example.Envelope.v1+cbor", "application/jose+json; charset=utf-8", "Application/COSE")
 	var n int
 	sizeClass := rp.Pick(rt, "sizeClass", "1B", "small", "small", "small", "small", "medium", "medium", "medium", "medium", "medium", "medium", "large", "large", "256KiB")
 	switch sizeClass {
@@ -815,6 +833,15 @@ func (s *session) fetch(d ocispec.Descriptor, r *referrer, rel string, site stri
 	}
 	if !eq3(gotDesc, want) {
 		s.fail("C19:fetch-descriptor:"+r.how, "fetched blob descriptor %v does not describe the envelope %v", plain(gotDesc), want)
+	}
+	if bytes.Equal(got, s.blobs[want.Digest]) {
+		if len(s.held) >= 6 {
+			s.held = s.held[1:]
+		}
+		s.held = append(s.held, heldEnvelope{got: got, want: want.Digest, id: r.id})
+		if len(s.held) > 1 {
+			s.rec.Class("fetch-while-holding-earlier-envelopes", 1)
+		}
 	}
 }
 
